@@ -738,7 +738,7 @@ impl Prop for P {
 
     fn rule() -> &'static str {
         "generated scenes: shape = CSG (union/intersection/difference, depth <= 4) of spheres, boxes, cylinders and \
-         half-spaces, or a random DAG over the exact (no-libm) alphabet on x, y, z, or a bundled model; image width and \
+         half-spaces, or a random DAG over the exact (no-libm) alphabet on x, y, z, or a bundled model, or a shape that passes the bit pattern of a BOUND free variable to the output (v, -v, abs(v), x + v, min(x, v); fixed cases enumerate every NaN class); tile lists valid by construction or arbitrary (TileSizes::new must accept exactly the lists that satisfy the documented invariant); every way of reading the image (row/column, linear, range indexing, iteration, map, size, take / build) must agree with the row-major slice; Value pixels must be reported inside exactly when the carried value is negative; image width and \
          height independently in 1..=96 (thorough 150); world-to-model = identity or rotate*scale*translate (sometimes \
          with a perspective row); slice height z; pixel_perfect; tile list = default or a generated valid list \
          (e.g. [27,9,3], [16,4,2,1], [7]); backend interpreter or JIT; no pool / global pool / custom pool of 2-5 threads. \
